@@ -460,29 +460,9 @@ def dot_operands_are_vectors(ck, prog):
     except Exception as e:
         ck.violation(rule, inst, "dot", "", expected="anchor exists", found=f"anchor vanished: {e}")
         return
-    cx = BodyCtx.of(b)
-    atoms = {("rows", 1): 0, ("cols", 1): 1, ("rows", 2): 2, ("cols", 2): 3}
-    tests = []
-    for c in cx.cmps:
-        for (L, R, rel) in ((c.lhs, c.rhs, c.rel), (c.rhs, c.lhs, guards.FLIP[c.rel])):
-            d = dim_of(L)
-            if d and d[0] in ("rows", "cols") and d[1][0] == "arg" and (d[0], d[1][1]) in atoms and R == ("int", 1) and rel in ("==", "!="):
-                tests.append((c, atoms[(d[0], d[1][1])], rel))
-    rets = [r for r in b.returns]
-    bad = []
-    for assign in itertools.product((False, True), repeat=4):
-        cut = set()
-        for c, k, rel in tests:
-            truth = assign[k] if rel == "==" else (not assign[k])
-            cut.add((c.bb, c.false_bb) if truth else (c.bb, c.true_bb))
-        reach = b.reachable_from([0], cut_edges=frozenset(cut))
-        can_return = any(r in reach for r in rets)
-        must_reject = not ((assign[0] or assign[1]) and (assign[2] or assign[3]))
-        if must_reject and can_return:
-            shape = lambda r1, c1: f"{'1' if r1 else 'm'}x{'1' if c1 else 'n'}"
-            bad.append(f"{shape(assign[0], assign[1])} . {shape(assign[2], assign[3])}")
-        if not must_reject and not can_return:
-            bad.append(f"refuses valid operands (assignment {assign})")
+    from sa.siblings import dot_vector_gate
+    ntests, bad = dot_vector_gate(b)
+    tests = [None] * ntests
     site = f"{b.loc[0]}:{b.loc[1]}"
     if bad:
         ck.violation(rule, inst, b.path, site, expected="a return is reachable iff each operand has a unit dimension",
@@ -497,3 +477,13 @@ def run(ck, prog):
 
 
 EXPLANATION += (' dot: truth table over the four unit-dimension tests - a return is reachable iff each operand is a row or column vector (found and fixed: 2x3 . 1x6 was accepted). Vec::from(DenseMatrix) is covered by the hand-out rule (found and fixed: it returned the storage buffer).')
+
+
+# ------------------------------------------------------------------ generic: `while counter < bound` loops advance their counter
+_run_pre_progress = run
+
+
+def run(ck, prog):
+    _run_pre_progress(ck, prog)
+    from sa import progress
+    progress.run_rule(ck, prog, set(DIMENSION_FILES))
